@@ -143,6 +143,7 @@ func (ex *Exec) dispatch(fr *Frame, st *State, key string, fn *ssa.Function, fre
 			if ca.After && calleeMatches(key, ca.Callee) && (ca.Ord == 0 || ca.Ord == ord) {
 				env := ex.callSiteEnv(fr, st, key, fn, args, sig)
 				env.setResults(rt, res)
+				env.nameResults(sig)
 				g := ex.evalBool(env, ca.Clause)
 				o := ex.oblige(st, "assert", fmt.Sprintf("assert:%s@after", clauseName(ca.Clause, 0)), g, pos)
 				o.Props = ca.Clause.Props
@@ -295,6 +296,18 @@ func (env *SpecEnv) setResults(rt types.Type, res Val) {
 	env.vars["result0"] = res
 }
 
+// nameResults binds named results of a signature.
+func (env *SpecEnv) nameResults(sig *types.Signature) {
+	rs := sig.Results()
+	if rs.Len() == 1 {
+		if nm := rs.At(0).Name(); nm != "" && nm != "_" {
+			if _, exists := env.vars[nm]; !exists {
+				env.vars[nm] = env.vars["result"]
+			}
+		}
+	}
+}
+
 func (ex *Exec) callSiteEnv(fr *Frame, st *State, key string, fn *ssa.Function, args []Val, sig *types.Signature) *SpecEnv {
 	env := ex.newEnv(fr.con.PkgPath, st)
 	// the verified function's own parameters and locals are visible, callee arguments as arg0..n / by name with prefix
@@ -354,6 +367,7 @@ func (ex *Exec) useContract(fr *Frame, st *State, con *Contract, key string, fn 
 	ex.bindParams(envPost, fn, sig, args, fn == nil)
 	envPost.old = envPre
 	envPost.setResults(rt, res)
+	envPost.nameResults(sig)
 	envPost.wmPre = pre.wm
 	ex.bindLets(envPost, con)
 	for _, c := range con.Ensures {
